@@ -245,6 +245,20 @@ def _check_histories(tier, seed):
             dc = d.copy()
             _touch(d, order)
             h.compare(d, dc, True, "cartesian_only:copy_taken_before_access", order[0] + "_first", inp)
+        # corners within the normalisation tolerance of the unit sphere but not exactly on it; normalize_cartesian_coordinates()
+        # called before the first lon / lat access
+        for scale in (1.0 + 3e-6, 1.0 - 2e-6):
+            mk2 = lambda: ux.Grid.from_face_vertices(verts.copy() * scale, latlon=False)
+            inp = {"mesh": m["name"], "construction": f"Grid.from_face_vertices(xyz * {scale!r}, latlon=False)",
+                   "history": ["normalize_cartesian_coordinates()", "copy()", "=="]}
+            a, b = mk2(), mk2()
+            try:
+                a.normalize_cartesian_coordinates()
+            except Exception:  # noqa: BLE001
+                continue
+            c = a.copy()
+            h.compare(a, c, True, "cartesian_only:copy_after_normalize_call", "near_unit_radius", inp)
+            h.compare(a, b, True, "cartesian_only:twin_without_normalize_call", "near_unit_radius", inp)
     return h, len(descs) + len(quads), accs
 
 
